@@ -17,6 +17,8 @@ func checkC20(p *Prog, r *Report) {
 	c20Daily(p, r)
 	c20Sinus(p, r)
 	c20SeriesId(p, r)
+	// the series dates are text in the configured date format
+	dateTextRules(p, r, "C20.R7")
 }
 
 func c20Lookup(p *Prog, r *Report) {
@@ -76,6 +78,10 @@ func c20Lookup(p *Prog, r *Report) {
 	r.Ob("interpolation", p.Pos(last.Pos), ok && isNilPoly(last.Rets[1]), fmt.Sprintf("general case returns %s (must be v_p + (v_n − v_p)(date − p)/(n − p))", clip(interp.String(), 260)))
 	if !ok {
 		return
+	}
+	{
+		rs, _ := last.Stmt.(*ast.ReturnStmt)
+		c20EqualReadings(p, r, fi, rs)
 	}
 	// role check: which neighbour is "previous"? the one assigned under d < date
 	// exact hit first
